@@ -809,9 +809,12 @@ def r33(ctx: Ctx) -> RuleReport:
     ev = loop.target.id if isinstance(loop.target, ast.Name) else None
     puts = set()
     for n in ast.walk(loop):
-        if isinstance(n, ast.Call) and isinstance(n.func, ast.Attribute) and n.func.attr == 'append' and n.args and norm(n.args[0]) == ev:
+        if isinstance(n, ast.Call) and isinstance(n.func, ast.Attribute) and n.func.attr in ('append', 'insert', 'add', 'appendleft') and n.args \
+                and norm(n.args[-1]) == ev:
             puts.add(v.node_of(n))
         if isinstance(n, ast.Assign) and isinstance(n.targets[0], ast.Name) and norm(n.value) == ev:
+            puts.add(v.node_of(n))
+        if isinstance(n, ast.AugAssign) and isinstance(n.op, ast.Add) and isinstance(n.value, (ast.List, ast.Tuple)) and [norm(e) for e in n.value.elts] == [ev]:
             puts.add(v.node_of(n))
     head = v.cfg.node_of(loop)
     if puts:
